@@ -307,6 +307,16 @@ def run(ctx):
                    what="`%s` is stored in %s, which is reachable from %s" % (fld, P.dm(fname).split("(")[0], bad))
     ctx.require_count("R06.3", 5)
 
+    # ---- R06.7 (AST): one observation of the other thread's index per derived quantity
+    ctx.rule("R06.7", "SNAPSHOT: in a ring function, values derived from two different loads of the index the OTHER thread advances never meet in one arithmetic expression - lengths and offsets are computed from one observation (labels flow through locals and out of unit helpers; comparisons are exempt)")
+    from ..rules import snapshot as SN
+    res7 = SN.analyse(u, shared)
+    for q7, f7, foreign7, nl7, mixes7 in res7:
+        ctx.ob("R06.7", q7, not mixes7, site=A.where(f7), detail={"foreign_indices": foreign7, "observations": nl7, "mixed": mixes7[:4]},
+               what="%s combines two observations of `%s` (%s) in `%s`: the other thread may have advanced the index in between" % (
+                   q7, mixes7[0]["index"] if mixes7 else "", ", ".join(mixes7[0]["observations"]) if mixes7 else "", mixes7[0]["expression"] if mixes7 else ""))
+    ctx.require(len(res7) >= 3, "R06.7: only %d ring functions observing a foreign index found" % len(res7))
+
     # ---- R06.6 (AST, finite-domain evaluation)
     from .. import fdeval as FD
     for q, expect in (("ring_write_size", lambda r_, w_, n_: (r_ - w_ - 1) % n_), ("ring_read_size", lambda r_, w_, n_: (w_ - r_) % n_)):
